@@ -43,11 +43,26 @@ Section Refine.
   Lemma velems_length bl : 0 <= h_len bl -> Z.of_nat (List.length (velems bl)) = h_len bl.
   Proof. intros H. unfold velems, view. rewrite map_length, seq_length. lia. Qed.
 
+  (* s' differs from s in the ledger only at the elements of es, and creates no element *)
+  Definition only_changes (s s' : state) (es : list elem) : Prop :=
+    next_elem s' = next_elem s /\ forall e, ~ In e es -> ledger s' e = ledger s e.
+  Lemma only_changes_refl s es : only_changes s s es.
+  Proof. split; reflexivity. Qed.
+  Lemma oc_frame s s' b : frame_block s s' b -> only_changes s s' [].
+  Proof. intros H. split; [exact (fb_next _ _ _ H)|]. intros e _. rewrite (fb_ledger _ _ _ H). reflexivity. Qed.
+  Lemma oc_same s s' : same_elems s s' -> only_changes s s' [].
+  Proof. intros H. split; [exact (se_next _ _ H)|]. intros e _. rewrite (se_ledger _ _ H). reflexivity. Qed.
+  Lemma oc_trans s s' s'' a b : only_changes s s' a -> only_changes s' s'' b -> only_changes s s'' (a ++ b).
+  Proof.
+    intros [H1 H2] [H3 H4]. split; [congruence|]. intros e He.
+    rewrite H4, H2; [reflexivity| |]; intros Hin; apply He; apply in_or_app; auto.
+  Qed.
+
   (* ------------------------------------------------------------------ pop = unsnoc *)
   Lemma pop_abs s v l : vabs s v l ->
     post (pop cfg v s)
-      (fun r s' => (l = [] /\ r = None /\ vabs s' v []) \/
-                   (exists l0 x, l = l0 ++ [x] /\ r = Some x /\ vabs s' v l0 /\ ledger s' x = Out))
+      (fun r s' => (l = [] /\ r = None /\ vabs s' v [] /\ s' = s) \/
+                   (exists l0 x, l = l0 ++ [x] /\ r = Some x /\ vabs s' v l0 /\ ledger s' x = Out /\ only_changes s s' [x]))
       (fun _ => False).
   Proof.
     intros [[Hs ->]|(b & bl & Hv & Hb & Ho & Hl)].
@@ -57,7 +72,7 @@ Section Refine.
       + erewrite pop_empty by eassumption. simpl. left.
         assert (l = []).
         { subst l. apply length_zero_iff_nil. pose proof (velems_length bl ltac:(lia)). lia. }
-        subst l. split; [assumption|]. split; [reflexivity|]. right. exists b, bl. rewrite H. auto.
+        subst l. split; [assumption|]. split; [reflexivity|]. split; [|reflexivity]. right. exists b, bl. rewrite H. auto.
       + assert (Hpos : 0 < h_len bl) by lia.
         destruct (pop_spec cfg ncap Hcfg s v b bl Hv Hb (ow_init _ _ Ho) Hpos)
           as (e & bl' & s1 & He & Ebl & Es1 & Hpop & Hvel & Hb' & Hi'). subst bl' s1.
@@ -67,7 +82,9 @@ Section Refine.
           by (simpl; apply (ow_live _ _ Ho); assumption).
         rewrite (bind_val _ _ _ _ _ (hand_out_live cfg Htracked _ e Hlive)). simpl.
         right. eexists _, e. split; [rewrite <- Hl; exact Hvel|]. split; [reflexivity|]. split.
-        2:{ unfold upd. rewrite Z.eqb_refl. reflexivity. }
+        2:{ split; [simpl; unfold upd; rewrite Z.eqb_refl; reflexivity|].
+            split; [reflexivity|]. intros e0 He0. simpl. unfold upd. destruct (Z.eqb_spec e0 e); [|reflexivity].
+            exfalso. apply He0. left. symmetry. assumption. }
         right. eexists b, _. split.
         { split; [exact (proj1 Hv)|]. simpl. eapply upd_block_same. exact (proj2 Hv). }
         split; [exact Hb'|]. split; [|reflexivity].
@@ -87,7 +104,7 @@ Section Refine.
 
   Lemma remove_abs s v l idx : vabs s v l -> 0 <= idx ->
     post (remove cfg v idx s)
-      (fun r s' => nth_error l (Z.to_nat idx) = Some r /\ vabs s' v (delete_at (Z.to_nat idx) l) /\ ledger s' r = Out)
+      (fun r s' => nth_error l (Z.to_nat idx) = Some r /\ vabs s' v (delete_at (Z.to_nat idx) l) /\ ledger s' r = Out /\ only_changes s s' [r])
       (fun s' => Z.of_nat (List.length l) <= idx /\ s' = s).
   Proof.
     intros [[Hs ->]|(b & bl & Hv & Hb & Ho & Hl)] Hidx.
@@ -104,7 +121,10 @@ Section Refine.
         assert (Hlive : ledger s1 x = Live) by (rewrite (fb_ledger _ _ _ Hfr); apply (ow_live _ _ Ho); assumption).
         rewrite (bind_val _ _ _ _ _ (hand_out_live cfg Htracked _ x Hlive)). simpl.
         split; [rewrite <- Hl; exact Hnth|]. split.
-        2:{ unfold upd. rewrite Z.eqb_refl. reflexivity. }
+        2:{ split; [simpl; unfold upd; rewrite Z.eqb_refl; reflexivity|].
+            split; [simpl; exact (fb_next _ _ _ Hfr)|]. intros e0 He0. simpl. unfold upd.
+            destruct (Z.eqb_spec e0 x); [exfalso; apply He0; left; symmetry; assumption|].
+            rewrite (fb_ledger _ _ _ Hfr). reflexivity. }
         right. eexists b, _. split.
         { split; [simpl; exact (proj1 Hv1)|simpl; exact (proj2 Hv1)]. }
         split; [exact Hb'|]. split; [|rewrite Hvel, <- Hl; reflexivity].
@@ -126,23 +146,26 @@ Section Refine.
   (* ------------------------------------------------------------------ truncate = firstn (also when a destructor panics) *)
   Lemma truncate_abs s v l n : vabs s v l -> 0 <= n ->
     let Q := fun s' => vabs s' v (firstn (Z.to_nat n) l) /\
-                       forall e, In e (skipn (Z.to_nat n) l) -> ledger s' e = Dropped in
+                       (forall e, In e (skipn (Z.to_nat n) l) -> ledger s' e = Dropped) /\
+                       only_changes s s' (skipn (Z.to_nat n) l) in
     post (truncate cfg v n s) (fun _ s' => Q s') Q.
   Proof.
     intros [[Hs ->]|(b & bl & Hv & Hb & Ho & Hl)] Hn Q.
     - rewrite (sn_truncate cfg s v Hs n Hn). simpl. unfold Q. rewrite firstn_nil, skipn_nil.
-      split; [left; auto|intros e []].
+      split; [left; auto|]. split; [intros e []|apply only_changes_refl].
     - pose proof (bo_len _ _ Hb) as Hlen.
       pose proof (velems_length bl ltac:(lia)) as Hvl.
       destruct (Z.le_gt_cases (h_len bl) n) as [Hge|Hlt].
       + rewrite (truncate_noop cfg s v (h_len bl) (len_at cfg s v b bl Hcfg Hv Hb) n Hge). simpl. unfold Q.
         rewrite firstn_all2 by (subst l; lia). rewrite skipn_all2 by (subst l; lia).
-        split; [right; eauto 8|intros e []].
+        split; [right; eauto 8|]. split; [intros e []|apply only_changes_refl].
       + destruct (truncate_spec cfg Hcfg Htracked s v b bl n Hv Hb (ow_init _ _ Ho) ltac:(lia) (ow_nodup _ _ Ho) (ow_live _ _ Ho))
           as (Hb' & Hvel & Hpost).
         set (bl' := with_hdr bl n (h_cap bl) (h_align bl)) in *.
         assert (Hgoal : forall s', vec_at s' v b bl' /\ destroyed (upd_block s b bl') s' (skipn (Z.to_nat n) (velems bl)) -> Q s').
-        { intros s' [Hv' Hd]. unfold Q. rewrite <- Hl. split; [|intros e He; exact (ds_in _ _ _ Hd e He)].
+        { intros s' [Hv' Hd]. unfold Q. rewrite <- Hl. split.
+          2:{ split; [intros e He; exact (ds_in _ _ _ Hd e He)|].
+              split; [rewrite (ds_next _ _ _ Hd); reflexivity|]. intros e He. rewrite (ds_out _ _ _ Hd e He). reflexivity. }
           right. exists b, bl'. split; [exact Hv'|]. split; [exact Hb'|]. split; [|exact Hvel].
           eapply owned_transfer with (s := s) (bl := bl); try exact Ho.
           - simpl. lia.
@@ -158,17 +181,23 @@ Section Refine.
 
   (* ------------------------------------------------------------------ capacity operations leave the list alone *)
   Lemma capop_abs s v l o : vabs s v l -> cap_arg_ok o ->
-    post (run_capop cfg ncap v o s) (fun _ s' => vabs s' v l) (fun s' => s' = s).
+    post (run_capop cfg ncap v o s) (fun _ s' => vabs s' v l /\ only_changes s s' []) (fun s' => s' = s).
   Proof.
     intros Hab Ha.
     eapply post_weaken.
-    - apply (run_capop_okP cfg ncap Hcfg Hpol (fun s bl => owned s bl /\ velems bl = l)) with (F := l = []) (s := s) (v := v) (o := o).
-      + intros s0 s' bl c size [Ho Hl] Hse. split; [|exact Hl].
-        apply (owned_grown s0 s' bl c size Ho); [exact (se_ledger _ _ Hse)|exact (se_next _ _ Hse)].
-      + intros -> s' size a c. split; [apply owned_fresh_block|reflexivity].
-      + destruct Hab as [[Hs Hl]|(b & bl & H1 & H2 & H3 & H4)]; [left; auto|right; eauto 8].
+    - apply (run_capop_okP cfg ncap Hcfg Hpol
+               (fun s' bl => owned s' bl /\ velems bl = l /\ ledger s' = ledger s /\ next_elem s' = next_elem s))
+        with (F := fun s0 => l = [] /\ ledger s0 = ledger s /\ next_elem s0 = next_elem s) (s := s) (v := v) (o := o).
+      + intros s0 s' bl c size (Ho & Hl & H1 & H2) Hse. split; [|split; [exact Hl|]].
+        * apply (owned_grown s0 s' bl c size Ho); [exact (se_ledger _ _ Hse)|exact (se_next _ _ Hse)].
+        * rewrite (se_ledger _ _ Hse), (se_next _ _ Hse). auto.
+      + intros s0 s' (-> & H1 & H2) Hse size a c. split; [apply owned_fresh_block|]. split; [reflexivity|].
+        rewrite (se_ledger _ _ Hse), (se_next _ _ Hse). auto.
+      + destruct Hab as [[Hs Hl]|(b & bl & H1 & H2 & H3 & H4)]; [left; auto|right; eauto 10].
       + exact Ha.
-    - intros u s' [[H1 H2]|(b & bl & H1 & H2 & H3 & H4)]; [left; auto|right; eauto 8].
+    - intros u s' [[H1 (H2 & H3 & H4)]|(b & bl & H1 & H2 & H3 & H4 & H5 & H6)].
+      + split; [left; auto|]. split; [exact H4|]. intros e _. rewrite H3. reflexivity.
+      + split; [right; eauto 8|]. split; [exact H6|]. intros e _. rewrite H5. reflexivity.
     - intros s' H. exact H.
   Qed.
 
@@ -181,12 +210,15 @@ Section Refine.
 
   Lemma vabs_drop_other s v l e :
     vabs s v l -> ledger s e = Live -> ~ In e l ->
-    post (drop_elem cfg e s) (fun _ s' => vabs s' v l) (fun s' => vabs s' v l).
+    let Q := fun s' => vabs s' v l /\ ledger s' e = Dropped /\ only_changes s s' [e] in
+    post (drop_elem cfg e s) (fun _ s' => Q s') Q.
   Proof.
-    intros Hab Hlv Hnot.
+    intros Hab Hlv Hnot Q.
     destruct (drop_elem_live cfg Htracked s e Hlv) as (s' & Hd & He). rewrite He.
-    assert (Hgoal : vabs s' v l).
-    { destruct Hab as [[Hs Hl]|(b & bl & Hv & Hb & Ho & Hl)].
+    assert (Hgoal : Q s').
+    { unfold Q. split; [|split; [apply (ds_in _ _ _ Hd); left; reflexivity|
+                                 split; [exact (ds_next _ _ _ Hd)|intros x Hx; exact (ds_out _ _ _ Hd x Hx)]]].
+      destruct Hab as [[Hs Hl]|(b & bl & Hv & Hb & Ho & Hl)].
       - left. split; [|exact Hl]. unfold vec_sentinel in *. rewrite (ds_vecs _ _ _ Hd). exact Hs.
       - right. exists b, bl. split.
         + destruct Hv as [H1 H2]. split; [rewrite (ds_vecs _ _ _ Hd); exact H1|rewrite (ds_heap _ _ _ Hd); exact H2].
@@ -199,29 +231,33 @@ Section Refine.
 
   Lemma push_abs s v l e :
     vabs s v l -> ledger s e = Live -> ~ In e l -> e < next_elem s ->
-    post (push cfg ncap v e s) (fun _ s' => vabs s' v (l ++ [e])) (fun s' => vabs s' v l).
+    post (push cfg ncap v e s) (fun _ s' => vabs s' v (l ++ [e]) /\ only_changes s s' [])
+                               (fun s' => vabs s' v l /\ ledger s' e = Dropped /\ only_changes s s' [e]).
   Proof.
     intros Hab Hle Hnh Hold. rewrite push_unfold.
-    eapply post_on_unwind with (Qp1 := fun s' => vabs s' v l /\ ledger s' e = Live).
-    2:{ intros s' (H1 & H2). eapply post_weaken; [apply (vabs_drop_other s' v l e H1 H2 Hnh)|auto|auto]. }
+    eapply post_on_unwind with (Qp1 := fun s' => vabs s' v l /\ ledger s' e = Live /\ only_changes s s' []).
+    2:{ intros s' (H1 & H2 & H3). eapply post_weaken; [apply (vabs_drop_other s' v l e H1 H2 Hnh)| |auto].
+        intros u s'' (G1 & G2 & G3). split; [exact G1|]. split; [exact G2|]. exact (oc_trans _ _ _ _ _ H3 G3). }
     destruct Hab as [[Hs ->]|(b & bl & Hv & Hb & Ho & Hl)].
     - (* never allocated *)
       destruct (sentinel_basics cfg s v Hs) as (Hl & Hc & Ha).
       rewrite (bind_val _ _ _ _ _ Hl), (bind_val _ _ _ _ _ Hc), (bind_val _ _ _ _ _ Ha).
       rewrite Z.eqb_refl.
       destruct (ncap 0) as [c1|] eqn:E1.
-      2:{ simpl. split; [left; auto|assumption]. }
+      2:{ simpl. split; [left; auto|]. split; [assumption|apply only_changes_refl]. }
       rewrite lift_opt_some. rewrite bind_assoc. rewrite bind_ret.
       destruct (Hpol 0 c1 ltac:(lia) E1) as (H1 & H2 & H3).
       eapply post_bind.
       { eapply post_weaken; [apply (grow_sentinel cfg ncap Hcfg s v c1 (max_align cfg) Hs ltac:(lia) (max_align_pow2 cfg Hcfg) ltac:(lia))| |].
         - intros u s' H. exact H.
-        - intros s' [E _]. rewrite E. split; [left; auto|assumption]. }
+        - intros s' [E _]. rewrite E. split; [left; auto|]. split; [assumption|apply only_changes_refl]. }
       intros u s' [(E & _)|(size & Hml & Hbn & Hal)]; [lia|].
       set (nbl := fresh_block size (max_align cfg) 0 c1 (max_align cfg)) in *.
       pose proof (allocated_vec_at _ _ _ _ Hal) as Hvn.
       destruct (push_tail_spec cfg Hcfg s' v _ nbl e Hvn Hbn ltac:(simpl; lia)) as (s'' & Hpt & Hv'' & Hfr & Hb'' & Hvel & Hinit).
-      rewrite Hpt. simpl. right. eexists _, _. split; [exact Hv''|]. split; [exact Hb''|].
+      rewrite Hpt. simpl. split.
+      2:{ change (@nil elem) with (@nil elem ++ @nil elem). eapply oc_trans; [apply oc_same; exact (al_same _ _ _ _ Hal)|eapply oc_frame; exact Hfr]. }
+      right. eexists _, _. split; [exact Hv''|]. split; [exact Hb''|].
       assert (Hown : owned s' nbl) by apply owned_fresh_block.
       split; [|rewrite Hvel; reflexivity].
       eapply owned_after_push with (s := s'); try exact Hown.
@@ -240,18 +276,20 @@ Section Refine.
       assert (Hnot : ~ In e (velems bl)) by (rewrite Hl; exact Hnh).
       destruct (Z.eqb_spec (h_len bl) (h_cap bl)) as [Efull|Nfull].
       + destruct (ncap (h_cap bl)) as [c1|] eqn:E1.
-        2:{ simpl. split; [right; eauto 8|assumption]. }
+        2:{ simpl. split; [right; eauto 8|]. split; [assumption|apply only_changes_refl]. }
         rewrite lift_opt_some. rewrite bind_assoc. rewrite bind_ret.
         destruct (Hpol (h_cap bl) c1 ltac:(lia) E1) as (H1 & H2 & H3).
         eapply post_bind.
         { eapply post_weaken; [apply (grow_realloc cfg ncap Hcfg s v b bl c1 Hv Hb ltac:(lia) ltac:(lia))| |].
           - intros u s' H. exact H.
-          - intros s' [E _]. rewrite E. split; [right; eauto 8|assumption]. }
+          - intros s' [E _]. rewrite E. split; [right; eauto 8|]. split; [assumption|apply only_changes_refl]. }
         intros u s' [(E & _)|(_ & size & Hml & Hbn & Hmv)]; [lia|].
         set (nbl := grown bl c1 size) in *.
         pose proof (moved_vec_at _ _ _ _ _ Hmv) as Hvn.
         destruct (push_tail_spec cfg Hcfg s' v _ nbl e Hvn Hbn ltac:(simpl; lia)) as (s'' & Hpt & Hv'' & Hfr & Hb'' & Hvel & Hinit).
-        rewrite Hpt. simpl. right. eexists _, _. split; [exact Hv''|]. split; [exact Hb''|].
+        rewrite Hpt. simpl. split.
+        2:{ change (@nil elem) with (@nil elem ++ @nil elem). eapply oc_trans; [apply oc_same; exact (mv_same _ _ _ _ _ Hmv)|eapply oc_frame; exact Hfr]. }
+        right. eexists _, _. split; [exact Hv''|]. split; [exact Hb''|].
         assert (Hown : owned s' nbl).
         { apply (owned_grown s s' bl c1 size Ho); [exact (se_ledger _ _ (mv_same _ _ _ _ _ Hmv))|exact (se_next _ _ (mv_same _ _ _ _ _ Hmv))]. }
         split; [|rewrite Hvel; simpl; rewrite <- Hl; reflexivity].
@@ -265,7 +303,8 @@ Section Refine.
         * apply Hinit. exact (ow_init _ _ Hown).
       + rewrite bind_ret.
         destruct (push_tail_spec cfg Hcfg s v b bl e Hv Hb ltac:(lia)) as (s'' & Hpt & Hv'' & Hfr & Hb'' & Hvel & Hinit).
-        rewrite Hpt. simpl. right. eexists _, _. split; [exact Hv''|]. split; [exact Hb''|].
+        rewrite Hpt. simpl. split; [|eapply oc_frame; exact Hfr].
+        right. eexists _, _. split; [exact Hv''|]. split; [exact Hb''|].
         split; [|rewrite Hvel, <- Hl; reflexivity].
         eapply owned_after_push with (s := s); try exact Ho; auto.
         * exact (fb_ledger _ _ _ Hfr).
@@ -368,30 +407,32 @@ Section Refine.
   Lemma insert_abs s v l idx e :
     vabs s v l -> ledger s e = Live -> ~ In e l -> e < next_elem s -> 0 <= idx ->
     post (insert cfg ncap v idx e s)
-      (fun _ s' => idx <= Z.of_nat (List.length l) /\ vabs s' v (list_insert (Z.to_nat idx) e l))
-      (fun s' => vabs s' v l).
+      (fun _ s' => idx <= Z.of_nat (List.length l) /\ vabs s' v (list_insert (Z.to_nat idx) e l) /\ only_changes s s' [])
+      (fun s' => vabs s' v l /\ ledger s' e = Dropped /\ only_changes s s' [e]).
   Proof.
     intros Hab Hle Hnh Hold Hidx. rewrite insert_unfold.
-    eapply post_on_unwind with (Qp1 := fun s' => vabs s' v l /\ ledger s' e = Live).
-    2:{ intros s' (H1 & H2). eapply post_weaken; [apply (vabs_drop_other s' v l e H1 H2 Hnh)|auto|auto]. }
+    eapply post_on_unwind with (Qp1 := fun s' => vabs s' v l /\ ledger s' e = Live /\ only_changes s s' []).
+    2:{ intros s' (H1 & H2 & H3). eapply post_weaken; [apply (vabs_drop_other s' v l e H1 H2 Hnh)| |auto].
+        intros u s'' (G1 & G2 & G3). split; [exact G1|]. split; [exact G2|]. exact (oc_trans _ _ _ _ _ H3 G3). }
     destruct Hab as [[Hs ->]|(b & bl & Hv & Hb & Ho & Hl)].
     - (* never allocated *)
       destruct (sentinel_basics cfg s v Hs) as (Hl & Hc & Ha).
       rewrite (bind_val _ _ _ _ _ Hl).
       destruct (Z.ltb_spec 0 idx) as [Hbad|Hzero].
-      { simpl. split; [left; auto|assumption]. }
+      { simpl. split; [left; auto|]. split; [assumption|apply only_changes_refl]. }
       assert (idx = 0) by lia. subst idx.
       rewrite bind_ret. rewrite (bind_val _ _ _ _ _ Hc). rewrite Z.eqb_refl.
       eapply post_bind.
       { eapply post_weaken; [apply (reserve_one_sentinel s v Hs)| |].
         - intros u s' H. exact H.
-        - intros s' ->. split; [left; auto|assumption]. }
+        - intros s' ->. split; [left; auto|]. split; [assumption|apply only_changes_refl]. }
       intros u s' (size & c1 & Hc1 & Hbn & Hal).
       set (nbl := fresh_block size (max_align cfg) 0 c1 (max_align cfg)) in *.
       pose proof (allocated_vec_at _ _ _ _ Hal) as Hvn.
       destruct (insert_tail_spec s' v _ nbl 0 e Hvn Hbn ltac:(simpl; lia) ltac:(simpl; lia))
         as (s'' & Hpt & Hv'' & Hfr & Hb'' & Hvel & Hinit).
-      change (h_len nbl) with 0 in Hpt. rewrite Hpt. simpl. split; [lia|].
+      change (h_len nbl) with 0 in Hpt. rewrite Hpt. simpl. split; [lia|]. split.
+      2:{ change (@nil elem) with (@nil elem ++ @nil elem). eapply oc_trans; [apply oc_same; exact (al_same _ _ _ _ Hal)|eapply oc_frame; exact Hfr]. }
       right. eexists _, _. split; [exact Hv''|]. split; [exact Hb''|].
       assert (Hown : owned s' nbl) by apply owned_fresh_block.
       split; [|exact Hvel].
@@ -410,20 +451,21 @@ Section Refine.
       rewrite (bind_val _ _ _ _ _ (len_at cfg _ _ _ _ Hcfg Hv Hb)).
       assert (Hnot : ~ In e (velems bl)) by (rewrite Hl; exact Hnh).
       destruct (Z.ltb_spec (h_len bl) idx) as [Hbad|Hin].
-      { simpl. split; [right; eauto 8|assumption]. }
+      { simpl. split; [right; eauto 8|]. split; [assumption|apply only_changes_refl]. }
       rewrite bind_ret.
       rewrite (bind_val _ _ _ _ _ (capacity_at cfg _ _ _ _ Hcfg Hv Hb)).
       destruct (Z.eqb_spec (h_len bl) (h_cap bl)) as [Efull|Nfull].
       + eapply post_bind.
         { eapply post_weaken; [apply (reserve_at cfg ncap Hcfg s v b bl 1 Hpol Hv Hb ltac:(lia))| |].
           - intros u s' H. exact H.
-          - intros s' ->. split; [right; eauto 8|assumption]. }
+          - intros s' ->. split; [right; eauto 8|]. split; [assumption|apply only_changes_refl]. }
         intros u s' [[Hfit _]|[_ (c & size & Hc1 & Hc2 & _ & Hbn & Hmv)]]; [lia|].
         set (nbl := grown bl c size) in *.
         pose proof (moved_vec_at _ _ _ _ _ Hmv) as Hvn.
         destruct (insert_tail_spec s' v _ nbl idx e Hvn Hbn ltac:(simpl; lia) ltac:(simpl; lia))
           as (s'' & Hpt & Hv'' & Hfr & Hb'' & Hvel & Hinit).
-        change (h_len nbl) with (h_len bl) in Hpt. rewrite Hpt. simpl. split; [subst l; lia|].
+        change (h_len nbl) with (h_len bl) in Hpt. rewrite Hpt. simpl. split; [subst l; lia|]. split.
+        2:{ change (@nil elem) with (@nil elem ++ @nil elem). eapply oc_trans; [apply oc_same; exact (mv_same _ _ _ _ _ Hmv)|eapply oc_frame; exact Hfr]. }
         right. eexists _, _. split; [exact Hv''|]. split; [exact Hb''|].
         assert (Hown : owned s' nbl).
         { apply (owned_grown s s' bl c size Ho); [exact (se_ledger _ _ (mv_same _ _ _ _ _ Hmv))|exact (se_next _ _ (mv_same _ _ _ _ _ Hmv))]. }
@@ -440,7 +482,7 @@ Section Refine.
       + rewrite bind_ret.
         destruct (insert_tail_spec s v b bl idx e Hv Hb ltac:(lia) ltac:(lia))
           as (s'' & Hpt & Hv'' & Hfr & Hb'' & Hvel & Hinit).
-        rewrite Hpt. simpl. split; [subst l; lia|].
+        rewrite Hpt. simpl. split; [subst l; lia|]. split; [|eapply oc_frame; exact Hfr].
         right. eexists _, _. split; [exact Hv''|]. split; [exact Hb''|].
         split; [|rewrite Hvel, <- Hl; reflexivity].
         eapply owned_after_insert with (s := s) (bl := bl) (e := e) (idx := Z.to_nat idx); try exact Ho; auto.
@@ -554,7 +596,7 @@ Section Refine.
 
   Lemma swap_remove_abs s v l idx : vabs s v l -> 0 <= idx ->
     post (swap_remove cfg v idx s)
-      (fun r s' => nth_error l (Z.to_nat idx) = Some r /\ vabs s' v (swap_delete (Z.to_nat idx) l) /\ ledger s' r = Out)
+      (fun r s' => nth_error l (Z.to_nat idx) = Some r /\ vabs s' v (swap_delete (Z.to_nat idx) l) /\ ledger s' r = Out /\ only_changes s s' [r])
       (fun s' => Z.of_nat (List.length l) <= idx /\ s' = s).
   Proof.
     intros [[Hs ->]|(b & bl & Hv & Hb & Ho & Hl)] Hidx.
@@ -598,7 +640,9 @@ Section Refine.
           replace (h_len bl + -1) with (h_len bl - 1) by lia.
           rewrite <- (swap_delete_view (slots bl) (h_len bl) idx ltac:(lia)). rewrite Hlst. reflexivity. }
         split; [rewrite <- Hl; exact Hnth|]. split.
-        2:{ unfold upd. rewrite Z.eqb_refl. reflexivity. }
+        2:{ split; [simpl; unfold upd; rewrite Z.eqb_refl; reflexivity|].
+            split; [reflexivity|]. intros e0 He0. simpl. unfold upd.
+            destruct (Z.eqb_spec e0 x); [exfalso; apply He0; left; symmetry; assumption|reflexivity]. }
         right. exists b, bl'. split.
         { pose proof (vec_at_upd s1 v b bl1 bl' Hv1) as [Ha Hbq]. split; [exact Ha|exact Hbq]. }
         split; [apply block_ok_with_slots; exact Hb1|]. split; [|rewrite Hvel, Hl; reflexivity].
@@ -662,25 +706,62 @@ Section Refine.
     | RCap _, _ => l' = l
     end%nat.
 
-  Lemma run_rop_abs s v l o : vabs s v l -> rop_ok o ->
-    post (run_rop v o s) (fun _ s' => exists l', rstep o true l l' /\ vabs s' v l')
-                         (fun s' => exists l', rstep o false l l' /\ vabs s' v l').
+  (* ---- accounting: every element created so far is in the vector, or was handed to the caller, or
+     has been destroyed -- nothing is lost.  (That nothing is destroyed or handed out TWICE is part
+     of "no undefined behaviour": the machine's drop_elem / hand_out are UB on a non-live element.) *)
+  Definition accounted (s : state) (l : list elem) : Prop :=
+    0 <= next_elem s /\
+    forall e, 0 <= e < next_elem s -> In e l \/ ledger s e = Out \/ ledger s e = Dropped.
+
+  Definition vacc (s : state) (v : nat) (l : list elem) : Prop := vabs s v l /\ accounted s l.
+
+  Lemma acc_step s s' l l' es :
+    accounted s l -> only_changes s s' es ->
+    (forall e, In e es -> ledger s' e = Out \/ ledger s' e = Dropped) ->
+    (forall e, In e l -> In e l' \/ In e es) ->
+    accounted s' l'.
   Proof.
-    intros Hab Hok.
+    intros [Hn Ha] [Hnx Hled] Hes Hsub. split; [lia|]. intros e He. rewrite Hnx in He.
+    destruct (in_dec Z.eq_dec e es) as [Hin|Hnot]; [right; apply Hes; exact Hin|].
+    destruct (Ha e He) as [Hl|Hr].
+    - destruct (Hsub e Hl); [left; assumption|contradiction].
+    - right. rewrite (Hled e Hnot). exact Hr.
+  Qed.
+
+  Lemma acc_fresh s l p : accounted s l -> accounted (fresh_state s p) (l ++ [next_elem s]).
+  Proof.
+    intros [Hn Ha]. split; [simpl; lia|]. simpl. intros e He.
+    destruct (Z.eq_dec e (next_elem s)) as [->|Ne]; [left; apply in_or_app; right; left; reflexivity|].
+    destruct (Ha e ltac:(lia)) as [Hl|Hr]; [left; apply in_or_app; left; exact Hl|].
+    right. unfold upd. destruct (Z.eqb_spec e (next_elem s)); [contradiction|exact Hr].
+  Qed.
+
+  Lemma run_rop_abs s v l o : vacc s v l -> rop_ok o ->
+    post (run_rop v o s) (fun _ s' => exists l', rstep o true l l' /\ vacc s' v l')
+                         (fun s' => exists l', rstep o false l l' /\ vacc s' v l').
+  Proof.
+    intros [Hab Hacc] Hok.
     assert (Hnew : ~ In (next_elem s) l).
-    { intros Hin. destruct Hab as [[_ ->]|(b & bl & _ & _ & Ho & Hl)]; [destruct Hin|].
-      subst l. pose proof (ow_old _ _ Ho _ Hin). lia. }
+    { intros Hin. destruct (vabs_owned s v l Hab) as (_ & _ & Hold). specialize (Hold _ Hin). lia. }
     destruct o as [p|i p| |i|i|n|o]; simpl in *.
-    - rewrite (bind_val _ _ _ _ _ (fresh_elem_eq s p)).
+    - (* push *)
+      rewrite (bind_val _ _ _ _ _ (fresh_elem_eq s p)).
+      pose proof (acc_fresh s l p Hacc) as Hacc'.
       eapply post_weaken.
       + apply (push_abs (fresh_state s p) v l (next_elem s)).
         * apply vabs_fresh. exact Hab.
         * simpl. unfold upd. rewrite Z.eqb_refl. reflexivity.
         * exact Hnew.
         * simpl. lia.
-      + intros u s' H. exists (l ++ [next_elem s]). split; [exists (next_elem s); auto|exact H].
-      + intros s' H. exists l. split; [reflexivity|exact H].
-    - rewrite (bind_val _ _ _ _ _ (fresh_elem_eq s p)).
+      + intros u s' [H Hoc]. exists (l ++ [next_elem s]). split; [exists (next_elem s); auto|]. split; [exact H|].
+        eapply acc_step; [exact Hacc'|exact Hoc|intros e []|intros e He; left; exact He].
+      + intros s' (H & Hd & Hoc). exists l. split; [reflexivity|]. split; [exact H|].
+        eapply acc_step; [exact Hacc'|exact Hoc| |].
+        * intros e [<-|[]]. right. exact Hd.
+        * intros e He. apply in_app_or in He. destruct He as [He|He]; [left; exact He|right; exact He].
+    - (* insert *)
+      rewrite (bind_val _ _ _ _ _ (fresh_elem_eq s p)).
+      pose proof (acc_fresh s l p Hacc) as Hacc'.
       eapply post_weaken.
       + apply (insert_abs (fresh_state s p) v l i (next_elem s)).
         * apply vabs_fresh. exact Hab.
@@ -688,28 +769,59 @@ Section Refine.
         * exact Hnew.
         * simpl. lia.
         * exact Hok.
-      + intros u s' [Hle H]. eexists. split; [exists (next_elem s); split; [exact Hnew|split; [lia|reflexivity]]|exact H].
-      + intros s' H. exists l. split; [reflexivity|exact H].
-    - eapply post_bind; [eapply post_weaken; [apply pop_abs; exact Hab|intros r s' H; exact H|intros s' []]|]. intros r s' H. simpl.
-      destruct H as [(-> & _ & H)|(l0 & x & -> & _ & H & _)].
-      + exists []. split; [reflexivity|exact H].
-      + exists l0. split; [rewrite removelast_last; reflexivity|exact H].
-    - eapply post_bind.
+      + intros u s' (Hle & H & Hoc). eexists. split; [exists (next_elem s); split; [exact Hnew|split; [lia|reflexivity]]|].
+        split; [exact H|].
+        eapply acc_step; [exact Hacc'|exact Hoc|intros e []|].
+        intros e He. left. eapply Permutation_in; [apply list_insert_perm|].
+        apply in_app_or in He. destruct He as [He|[<-|[]]]; [right; exact He|left; reflexivity].
+      + intros s' (H & Hd & Hoc). exists l. split; [reflexivity|]. split; [exact H|].
+        eapply acc_step; [exact Hacc'|exact Hoc| |].
+        * intros e [<-|[]]. right. exact Hd.
+        * intros e He. apply in_app_or in He. destruct He as [He|He]; [left; exact He|right; exact He].
+    - (* pop *)
+      eapply post_bind; [eapply post_weaken; [apply pop_abs; exact Hab|intros r s' H; exact H|intros s' []]|].
+      intros r s' H. simpl.
+      destruct H as [(-> & _ & H & ->)|(l0 & x & -> & _ & H & Hout & Hoc)].
+      + exists []. split; [reflexivity|]. split; assumption.
+      + exists l0. split; [rewrite removelast_last; reflexivity|]. split; [exact H|].
+        eapply acc_step; [exact Hacc|exact Hoc| |].
+        * intros e [<-|[]]. left. exact Hout.
+        * intros e He. apply in_app_or in He. destruct He as [He|He]; [left; exact He|right; exact He].
+    - (* remove *)
+      eapply post_bind.
       + eapply post_weaken; [apply remove_abs; eassumption|intros r s' H; exact H|].
-        intros s' [Hlen ->]. exists l. split; [split; [lia|reflexivity]|exact Hab].
-      + intros r s' (Hn & H & _). simpl. exists (delete_at (Z.to_nat i) l). split; [|exact H].
-        split; [|reflexivity]. apply nth_error_Some. rewrite Hn. discriminate.
-    - eapply post_bind.
+        intros s' [Hlen ->]. exists l. split; [split; [lia|reflexivity]|]. split; assumption.
+      + intros r s' (Hn & H & Hout & Hoc). simpl. exists (delete_at (Z.to_nat i) l). split.
+        { split; [|reflexivity]. apply nth_error_Some. rewrite Hn. discriminate. }
+        split; [exact H|].
+        eapply acc_step; [exact Hacc|exact Hoc| |].
+        * intros e [<-|[]]. left. exact Hout.
+        * intros e He. pose proof (nth_split_local _ _ _ Hn) as Hsp. rewrite Hsp in He. unfold delete_at.
+          apply in_app_or in He. destruct He as [He|[<-|He]]; [left; apply in_or_app; left; exact He|right; left; reflexivity|left; apply in_or_app; right; exact He].
+    - (* swap_remove *)
+      eapply post_bind.
       + eapply post_weaken; [apply swap_remove_abs; eassumption|intros r s' H; exact H|].
-        intros s' [Hlen ->]. exists l. split; [split; [lia|reflexivity]|exact Hab].
-      + intros r s' (Hn & H & _). simpl. exists (swap_delete (Z.to_nat i) l). split; [|exact H].
-        split; [|reflexivity]. apply nth_error_Some. rewrite Hn. discriminate.
-    - eapply post_weaken; [apply truncate_abs; eassumption| |].
-      + intros u s' [H _]. eexists. split; [reflexivity|exact H].
-      + intros s' [H _]. eexists. split; [reflexivity|exact H].
-    - eapply post_weaken; [apply capop_abs; eassumption| |].
-      + intros u s' H. exists l. split; [reflexivity|exact H].
-      + intros s' ->. exists l. split; [reflexivity|exact Hab].
+        intros s' [Hlen ->]. exists l. split; [split; [lia|reflexivity]|]. split; assumption.
+      + intros r s' (Hn & H & Hout & Hoc). simpl. exists (swap_delete (Z.to_nat i) l). split.
+        { split; [|reflexivity]. apply nth_error_Some. rewrite Hn. discriminate. }
+        split; [exact H|].
+        eapply acc_step; [exact Hacc|exact Hoc| |].
+        * intros e [<-|[]]. left. exact Hout.
+        * intros e He. pose proof (swap_delete_perm _ _ _ Hn) as Hp.
+          apply (Permutation_in _ Hp) in He. destruct He as [<-|He]; [right; left; reflexivity|left; exact He].
+    - (* truncate *)
+      eapply post_weaken; [apply truncate_abs; eassumption| |].
+      + intros u s' (H & Hd & Hoc). eexists. split; [reflexivity|]. split; [exact H|].
+        eapply acc_step; [exact Hacc|exact Hoc|intros e He; right; exact (Hd e He)|].
+        intros e He. rewrite <- (firstn_skipn (Z.to_nat n) l) in He. apply in_app_or in He. exact He.
+      + intros s' (H & Hd & Hoc). eexists. split; [reflexivity|]. split; [exact H|].
+        eapply acc_step; [exact Hacc|exact Hoc|intros e He; right; exact (Hd e He)|].
+        intros e He. rewrite <- (firstn_skipn (Z.to_nat n) l) in He. apply in_app_or in He. exact He.
+    - (* capacity operations *)
+      eapply post_weaken; [apply capop_abs; eassumption| |].
+      + intros u s' [H Hoc]. exists l. split; [reflexivity|]. split; [exact H|].
+        eapply acc_step; [exact Hacc|exact Hoc|intros e []|intros e He; left; exact He].
+      + intros s' ->. exists l. split; [reflexivity|]. split; assumption.
   Qed.
 
   Fixpoint run_rops (v : nat) (os : list rop) : M unit :=
@@ -725,16 +837,16 @@ Section Refine.
 
   (* For EVERY sequence of these operations with ANY arguments and ANY set of panicking
      destructors, every panic being caught between the operations: no undefined behaviour, no hang,
-     and the vector's contents are those of the list specification -- the machine REFINES the list
-     model that std::Vec implements. *)
+     the vector's contents are those of the list specification -- the machine REFINES the list
+     model that std::Vec implements -- and every element ever created is accounted for. *)
   Theorem history_refines_list_spec v os s l :
-    vabs s v l -> Forall rop_ok os ->
-    post (run_rops v os s) (fun _ s' => exists l', rsteps os l l' /\ vabs s' v l') (fun _ => False).
+    vacc s v l -> Forall rop_ok os ->
+    post (run_rops v os s) (fun _ s' => exists l', rsteps os l l' /\ vacc s' v l') (fun _ => False).
   Proof.
     revert s l. induction os as [|o os IH]; intros s l Hab Hargs.
     - simpl. exists l. split; [constructor|exact Hab].
     - inversion Hargs as [|? ? Ho Hos]; subst. simpl.
-      eapply post_bind with (Q1 := fun _ s' => exists c l1, rstep o c l l1 /\ vabs s' v l1).
+      eapply post_bind with (Q1 := fun _ s' => exists c l1, rstep o c l l1 /\ vacc s' v l1).
       + eapply post_catch; [apply run_rop_abs; eassumption| |].
         * intros a s' (l1 & H1 & H2). exists true, l1. auto.
         * intros s' (l1 & H1 & H2). exists false, l1. auto.
